@@ -60,7 +60,7 @@ def numeric_extras(rnd):
 def run(tier):
     vlib.ensure_build(asan=False)
     chk = Check(PID, tier)
-    ngen, ngold = (36, 14) if tier == "quick" else (900, 400)
+    ngen, ngold = (36, 14) if tier == "quick" else (300, 150)
     chk.rule = ("sources: seeded random statement programs of ddpmodel (a third of them with local variables only) and C08's copy/alias programs (self-contained print prelude, so all 12 configurations {O0,O1,O2} x {modules linked?} x "
                 "{list definitions linked?} apply) extended with model-free pow/root/log observations, plus upstream's programs under tests/testdata and examples "
                 "that compile here (6 configurations, imports need module linking). Distinct by source hash; non-trivial = at least two configurations produced an "
